@@ -249,3 +249,17 @@ case("C17", "mask-end-exclusive", "VIOLATION", [(MT, "end = locus.end // in_wind
 case("C17", "global-rng", "VIOLATION", [(MT, "\t\trandom_state.shuffle(value)", "\t\tnumpy.random.shuffle(value)")], "R-RNG")
 case("C17", "bg-not-reduced", "VIOLATION", [(MT, "\t\t\tif idx >= 0:\n\t\t\t\tcount = min(bg_bin_count[idx], loci_bin_count[i])\n\t\t\t\tbg_bin_count[idx] -= count\n", "\t\t\tif idx >= 0:\n\t\t\t\tcount = min(bg_bin_count[idx], loci_bin_count[i])\n")], "COUNTS")
 case("C17", "tile-end-off", "VIOLATION", [(MT, "matched_loci['end'].append((start+1)*in_window)", "matched_loci['end'].append((start+1)*in_window - 1)")], "TILES")
+
+# ------------------------------------------------------------------ C02
+case("C02", "shuffle-gather-from-clone", "VIOLATION", [(E, "X_[:, :, start:end] = X[:, :, start:end][:, :, idxs]", "X_[:, :, start:end] = X[:, :, start+1:end+1][:, :, idxs]")], "REGION", "ersatz.shuffle")
+case("C02", "shuffle-end-guard-ge", "VIOLATION", [(E, "\tif end > X.shape[-1] or start < 0:\n\t\traise ValueError(\"Start or end are falling off the edge of X.\")\n\n\tif not isinstance(random_state, numpy.random.RandomState):\n\t\trandom_state = numpy.random.RandomState(random_state)\n\n\tX_shufs = []\n\tfor i in range(n):\n\t\tidxs", "\tif end > X.shape[-1] + 1 or start < 0:\n\t\traise ValueError(\"Start or end are falling off the edge of X.\")\n\n\tif not isinstance(random_state, numpy.random.RandomState):\n\t\trandom_state = numpy.random.RandomState(random_state)\n\n\tX_shufs = []\n\tfor i in range(n):\n\t\tidxs")], "REGION", "ersatz.shuffle")
+case("C02", "shuffle-neg-end-off", "VIOLATION", [(E, "\tif end < 0:\n\t\tend = X.shape[-1] + 1 + end\n\n\tif end <= start:\n\t\traise ValueError(\"End must come after start.\")\n\n\tif end > X.shape[-1] or start < 0:", "\tif end < 0:\n\t\tend = X.shape[-1] + 2 + end\n\n\tif end <= start:\n\t\traise ValueError(\"End must come after start.\")\n\n\tif end > X.shape[-1] + 1 or start < 0:")], "REGION", "ersatz.shuffle")
+case("C02", "shuffle-index-not-shuffled", "VIOLATION", [(E, "\t\trandom_state.shuffle(idxs)\n", "")], "REGION", "ersatz.shuffle")
+case("C02", "shuffle-no-permute", "VIOLATION", [(E, "\treturn torch.stack(X_shufs).permute(1, 0, 2, 3)\n\n\t\t\nparams", "\treturn torch.stack(X_shufs)\n\n\t\t\nparams")], "R-AXES", "ersatz.shuffle")
+case("C02", "shuffle-stack-dim1", "HOLDS", [(E, "\treturn torch.stack(X_shufs).permute(1, 0, 2, 3)\n\n\t\t\nparams", "\treturn torch.stack(X_shufs, dim=1)\n\n\t\t\nparams")])
+case("C02", "dinuc-seed-no-index", "VIOLATION", [(E, "random_state=random_state+i, verbose=verbose)", "random_state=random_state, verbose=verbose)")], "R-RNG", "ersatz.dinucleotide_shuffle")
+case("C02", "dinuc-seed-guard-type", "VIOLATION", [(E, "\t_validate_input(X, \"X\", shape=(-1, -1, -1), ohe=True, ohe_dim=1)\n\n\tif random_state is None:", "\t_validate_input(X, \"X\", shape=(-1, -1, -1), ohe=True, ohe_dim=1)\n\n\tif not isinstance(random_state, int):")], "R-RNG", "ersatz.dinucleotide_shuffle")
+case("C02", "dinuc-write-other-region", "VIOLATION", [(E, "X_shuf[:, :, start:end] = insert_", "X_shuf[:, :, start:] = insert_")], "REGION", "ersatz.dinucleotide_shuffle")
+case("C02", "walk-full-permutation", "VIOLATION", [(E, "\t\t\tnext_idxs_ = numpy.arange(n)\n\t\t\tnext_idxs_[:-1] = numpy.random.permutation(n-1)  # Keep last index", "\t\t\tnext_idxs_ = numpy.random.permutation(n)")], "PREFIX-PERM")
+case("C02", "walk-seed-late", "VIOLATION", [(E, "\tnumpy.random.seed(random_state)\n\n\tfor i in range(n_shuffles):\n\t\tfor char in range(n_chars):", "\tfor i in range(n_shuffles):\n\t\tnumpy.random.seed(random_state)\n\t\tfor char in range(n_chars):")], "R-RNG", "ersatz._fast_shuffle")
+case("C02", "shuffle-no-clone", "VIOLATION", [(E, "\t\tX_ = torch.clone(X)\n\t\tX_[:, :, start:end]", "\t\tX_ = X\n\t\tX_[:, :, start:end]")], None, "ersatz.shuffle")
